@@ -5,7 +5,7 @@ From Coq Require Import List.
 From Coq.Strings Require Import Byte.
 From GI Require Import Lib.Bytes Gen.TxtarWriteConsts Txtar.Txtar
   TxtarWrite.Path TxtarWrite.TxtarWrite TxtarWrite.PathFacts TxtarWrite.WriteFacts
-  TxtarWrite.RelWrite TxtarWrite.GoodWrite TxtarWrite.SavedirFacts.
+  TxtarWrite.FuelFacts TxtarWrite.NulFacts TxtarWrite.RelWrite TxtarWrite.GoodWrite TxtarWrite.SavedirFacts.
 Import ListNotations.
 
 (* A cleaned name that the guard of Write lets through (not absolute, not "..", no
@@ -105,22 +105,11 @@ Print Assumptions C15_archived_files.
    comment lines (txtar.Unquote on the files they name; txtar-x itself does not interpret
    them) gives back fix_nl of the original contents; nothing else appears beneath the
    directory except the directories leading to those files.
-   _partial: the directory is named by an absolute string (txtar-x -C /abs/dir); the
-   statement for any directory string is C15_savedir_extract_full_statement, not asserted
-   (the runner also exercises txtar-x run inside the directory with the default "."). *)
-Definition C15_savedir_extract_full_statement : Prop := forall fl t cwd fs dir,
-  Forall real cwd -> dir_exists fs cwd -> tree_ok t ->
-  Forall nul_free (resolve cwd dir) -> dir_exists fs (resolve cwd dir) ->
-  (forall q, beneath (resolve cwd dir) q -> get fs q = None) ->
-  exists fs',
-    extract cwd fs dir (txtar_c fl t) = (fs', WOk) /\
-    (forall p d cl n s, In (p, d) t -> savedir_entry fl (p, d) = Some (cl, (n, s)) ->
-       get fs' (resolve cwd dir ++ p) = Some (File s) /\
-       restored (comment (parse (txtar_c fl t))) n s = Some (fix_nl d)).
-
-Theorem C15_savedir_extract_partial : forall fl t cwd fs dir,
-  is_abs dir = true -> tree_ok t ->
-  Forall nul_free (resolve cwd dir) -> dir_exists fs (resolve cwd dir) ->
+   The directory is named by ANY NUL-free string (absolute, or relative to a current
+   directory of real NUL-free elements: txtar-x's default "." included). *)
+Theorem C15_savedir_extract : forall fl t cwd fs dir,
+  Forall real cwd -> Forall nul_free cwd -> has_nul dir = false -> tree_ok t ->
+  dir_exists fs (resolve cwd dir) ->
   (forall q, beneath (resolve cwd dir) q -> get fs q = None) ->
   exists fs',
     extract cwd fs dir (txtar_c fl t) = (fs', WOk) /\
@@ -132,4 +121,17 @@ Theorem C15_savedir_extract_partial : forall fl t cwd fs dir,
          ((q = resolve cwd dir ++ p /\ exists s, x = File s) \/
           (x = Dir /\ proper q (resolve cwd dir ++ p)))).
 Proof. exact savedir_extract. Qed.
-Print Assumptions C15_savedir_extract_partial.
+Print Assumptions C15_savedir_extract.
+
+(* The fuel that bounds os.MkdirAll's recursion in the model is never exhausted: the
+   explicit WOutOfFuel answer is not a possible result of Write or of txtar-x. *)
+Theorem C15_never_out_of_fuel : forall cwd fs dir a, snd (write cwd fs dir a) <> WOutOfFuel.
+Proof. exact write_never_out_of_fuel. Qed.
+Print Assumptions C15_never_out_of_fuel.
+
+(* A NUL-free string denotes, from a NUL-free current directory, a path of NUL-free elements *)
+Theorem C15_resolve_nul_free : forall cwd p,
+  Forall nul_free cwd -> has_nul p = false -> Forall nul_free (resolve cwd p).
+Proof. exact resolve_nul_free. Qed.
+Print Assumptions C15_resolve_nul_free.
+
